@@ -32,7 +32,7 @@ THEOREMS = [
 LEAN_MODULES = ["PorepyVerif.C12.Props"]
 AUDIT = "PorepyVerif/C12/Audit.lean"
 DRIVER = "PorepyVerif/C12/Driver.lean"
-N = {"quick": 160, "thorough": 2500}
+N = {"quick": 240, "thorough": 2500}
 TOL = 1e-10
 KEYS = ["flux", "bound_flux", "bound_pressure_cell", "bound_pressure_face", "vector_source", "bound_pressure_vector_source"]
 RULE = ("grids: CartGrid / TensorGrid (non-uniform rational coordinates) / StructuredTriangleGrid / StructuredTetrahedralGrid in 1-3 D, "
@@ -161,7 +161,7 @@ def gen_case(rng, tier):
             a, b = sorted(rng.sample(range(nx[0] + 1), 2))
             case["frac"] = [[a, b], [y, y]]
     # geometry variants
-    variant = rng.choice(["plain", "plain", "plain", "affine", "affine", "perturbed", "rotated", "affine+rotated", "perturbed+rotated"])
+    variant = rng.choice(["plain", "plain", "plain", "plain", "plain", "affine", "affine", "perturbed", "rotated", "affine+rotated", "perturbed+rotated"])
     if kind == "frac":
         variant = "plain"
     J = None
@@ -176,16 +176,21 @@ def gen_case(rng, tier):
         Q = None
     if J is not None:
         case["J"] = [[frac(x) for x in row] for row in J]
+    g0 = _base_grid(case)
     if "perturbed" in variant:
-        nn = _num_nodes(case)
+        nn = g0.num_nodes
+        # smallest node spacing along each axis of the (axis-aligned) base grid
+        hmin = []
+        for a in range(3):
+            xs = sorted({Fraction(float(x)) for x in g0.nodes[a]})
+            hmin.append(min((q - p for p, q in zip(xs, xs[1:])), default=Fraction(1)))
         k = rng.randint(1, nn)
         for i in sorted(rng.sample(range(nn), k)):
-            d = [_fr(rng, -1, 1, (5, 6, 8, 10)) / 1 if a < dim else Fraction(0) for a in range(3)]
-            d = [x * Fraction(1, 5) * (Fraction(1, 2) if case["coords"] else 1) for x in d]
+            d = [hmin[a] * Fraction(rng.randint(-8, 8), 64) if a < dim else Fraction(0) for a in range(3)]
             case["perturb"].append([i] + [frac(x) for x in d])
     # tensor
-    nc = _num_cells(case)
-    mode = rng.choice(["iso", "diag", "full", "full", "korth", "korth"]) if shear is not None else rng.choice(["iso", "diag", "diag", "full", "full"])
+    nc = int(g0.num_cells)
+    mode = rng.choice(["iso", "diag", "full", "full", "korth", "korth"]) if shear is not None else rng.choice(["iso", "diag", "diag", "diag", "full", "full"])
     const = rng.random() < (0.7 if mode == "korth" else 0.4)
     base_modes = "diag" if mode == "korth" else mode
     vals = [_spd(rng, base_modes)] * nc if const else [_spd(rng, base_modes) for _ in range(nc)]
@@ -209,7 +214,7 @@ def gen_case(rng, tier):
         mode = "diag-rotated"
     case["K"] = {"mode": mode, "const": const, "vals": [[frac(x) for x in v] for v in vals]}
     # boundary conditions (per boundary face, in the order of get_all_boundary_faces)
-    nb = _num_bndr(case)
+    nb = int(g0.get_all_boundary_faces().size)  # tags are set by the constructor
     style = rng.choice(["mixed", "mixed", "mixed", "all-dir", "all-neu", "one-dir", "with-rob"])
     bc = []
     for _ in range(nb):
@@ -255,21 +260,6 @@ def _base_grid(case):
             mdg = pp.meshing.cart_grid([np.array(case["frac"], dtype=float)], np.array(nx))
         return mdg.subdomains(dim=2)[0]
     raise ValueError(kind)
-
-
-def _num_nodes(case):
-    return _base_grid(case).num_nodes
-
-
-def _num_cells(case):
-    return _base_grid(case).num_cells
-
-
-def _num_bndr(case):
-    g = _base_grid(case)
-    if case["kind"] != "frac":
-        g.compute_geometry()
-    return int(g.get_all_boundary_faces().size)
 
 
 def _build(case):
@@ -440,6 +430,7 @@ def _classify(case, g, k):
 
 def oracle(case):
     import porepy as pp
+    _build(case)  # an exception here is a generator / shrinker problem, not a property failure
     try:
         g, k, bc, M = _discretize(case)
     except Exception as e:
@@ -493,6 +484,28 @@ def oracle(case):
             if bf.size and np.all(np.isfinite(pb)) and np.abs(pb[bf] - c0).max() > 1e-9 * abs(c0) * max(1.0, np.abs(bpf.data).max()):
                 f = int(bf[np.abs(pb[bf] - c0).argmax()])
                 return {"what": f"constant pressure {c0}: reconstructed boundary pressure {pb[f]!r} on face {f}", "key": "const-bound-pressure"}
+    # 3b. hydrostatic consistency of the vector source (any grid, any K): p = a + G.x with vector source G in every cell
+    #     gives zero flux on every interior / Dirichlet face, and the reconstructed boundary pressure is p at the face centre
+    vsd = _vsd(case, g)
+    if pure_bc and 1 <= vsd <= 3 and "vector_source" in M and np.abs(g.nodes[vsd:]).max(initial=0.0) == 0:
+        Gv = np.array([1.5, -0.75, 2.0])
+        Gv[vsd:] = 0
+        p = 0.25 + Gv @ g.cell_centers
+        pf = 0.25 + Gv @ g.face_centers
+        vals = np.zeros(nf)
+        vals[bc.is_dir] = pf[bc.is_dir]
+        vs = np.tile(Gv[:vsd], nc)
+        q = flux @ p + bflux @ vals + M["vector_source"] @ vs
+        sc = max(1.0, np.abs(flux).max() * max(1.0, np.abs(p).max()))
+        if np.abs(q).max() > 1e-9 * sc:
+            f = int(np.abs(q).argmax())
+            return {"what": f"hydrostatic pressure with matching vector source gives flux {q[f]!r} on face {f}", "key": "vector-source-hydrostatic"}
+        pb = bpc @ p + bpf @ vals + M["bound_pressure_vector_source"] @ vs
+        bf = g.get_all_boundary_faces()
+        ext = bf[~bc.is_internal[bf] | bc.is_neu[bf]]
+        if ext.size and np.all(np.isfinite(pb)) and np.abs(pb - pf)[ext].max() > 1e-9 * max(1.0, np.abs(pf).max()):
+            f = int(ext[np.abs(pb - pf)[ext].argmax()])
+            return {"what": f"hydrostatic pressure: reconstructed boundary pressure {pb[f]!r} on face {f}, expected {pf[f]!r}", "key": "vector-source-bound-pressure"}
     cart_like, diag, const, korth = _classify(case, g, k)
     # 4. M-matrix structure on Cartesian / tensor grids with diagonal permeability
     if cart_like and diag and not has_rob:
